@@ -528,6 +528,8 @@ func assumptionsFor(prop string) []string {
 		"C13": {"front-end guarantees TreeWF()/CodeWF() are assumed (C03 not applicable); strings.Reader model assumed; termination of the optimizer fixpoint, of NullableVisit and of the front-end parser itself not under contract"},
 		"C04": {"strings.Reader is abstracted to a stream of runes with an assumed progress/EOF contract"},
 		"C06": {"user code predicates are functions of their own labels and the position (C06's hypothesis, stated as the assumed contract of the run field)"},
+		"C18": {"user code blocks do not keep c.state beyond the block: the live state map is cleared and pooled when the block returns (defect F17, DESIGN 16.3: the project's own test grammar returns c.state); no schedule is explored, confinement implies race freedom by a standard meta-theorem"},
+		"C05": {"user code blocks do not keep c.state beyond the block (F17)"},
 		"C09": {"the optimize visitor's slice surgery is outside the slice model; visitors are assumed to keep the tree well-formed"},
 	}
 	return append(extra[prop], assumptionsBase()...)
@@ -580,7 +582,11 @@ func (d *Driver) writeInventory(results []oblResult) {
 		var al map[string][]string
 		if json.Unmarshal(b, &al) == nil {
 			for alias, ts := range al {
+				// the property's own obligations (every package) plus the runtime obligations of the aliased ones
 				u := map[string]bool{}
+				for k := range fresh[alias] {
+					u[k] = true
+				}
 				for _, t := range ts {
 					for k := range fresh[t] {
 						if strings.HasPrefix(k, "rt:") {
